@@ -115,6 +115,15 @@ fn check_pair(ctx: &Ctx, a: &Universal2DBox, b: &Universal2DBox, deep: bool) {
     if ref_i > margin && (Universal2DBox::too_far(a, b) || Universal2DBox::too_far(b, a)) {
         viol("too_far/rejects-overlap", format!("too_far = true, reference intersection {ref_i:e}"));
     }
+    // the public clipping method (no bounding-circle shortcut in front of it): polygon of the overlap
+    let poly = a.clone().sutherland_hodgman_clip(b.clone());
+    // relative to the first vertex: shoelace on absolute coordinates of 1e4 loses 8 digits
+    let o = poly.exterior().0.first().map(|c| (c.x, c.y)).unwrap_or((0.0, 0.0));
+    let pts: Vec<(f64, f64)> = poly.exterior().0.iter().map(|c| (c.x - o.0, c.y - o.1)).collect();
+    let parea = if pts.len() >= 4 { geom::shoelace(&pts[..pts.len() - 1]).abs() } else { 0.0 };
+    if !parea.is_finite() || (parea - ref_i).abs() > tol_area {
+        viol("clip-method/area", format!("area of a.sutherland_hodgman_clip(b) {parea:e}, reference {ref_i:e}"));
+    }
     if !deep {
         return;
     }
@@ -209,7 +218,7 @@ fn grow(r: &RBox, rel: f64) -> RBox {
 
 pub fn run(tier: Tier) -> Report {
     let rep = Report::new("C08", tier);
-    rep.set_rule("box pairs = centre offsets on a dyadic lattice (quick 21x21 step 0.5, thorough 41x41 step 0.25) x (w,h) in sizes^2 for both boxes x angle menu for both boxes, plus identical / nested / edge-sharing / touching families, plus the same pairs far from the origin (1e4) ; every pair: intersection area and IoU against an independent f64 convex clipper (closed form when axis-aligned), range, symmetry, identity, absent iff disjoint, too_far soundness, joint translation / rotation invariance, axis-aligned closed form. Non-trivial = reference intersection positive by margin.");
+    rep.set_rule("[also: area of the polygon returned by the public method a.sutherland_hodgman_clip(b) for every pair] box pairs = centre offsets on a dyadic lattice (quick 21x21 step 0.5, thorough 41x41 step 0.25) x (w,h) in sizes^2 for both boxes x angle menu for both boxes, plus identical / nested / edge-sharing / touching families, plus the same pairs far from the origin (1e4) ; every pair: intersection area and IoU against an independent f64 convex clipper (closed form when axis-aligned), range, symmetry, identity, absent iff disjoint, too_far soundness, joint translation / rotation invariance, axis-aligned closed form. Non-trivial = reference intersection positive by margin.");
     rep.assume("reference clipper engine/src/geom.rs; overlap decisions asserted only when the reference area exceeds 1e-6 of the smaller box");
     let ctx = Ctx { rep: &rep, evals: AtomicU64::new(0), nontrivial: AtomicU64::new(0), undecided: AtomicU64::new(0) };
     let angles: Vec<Option<f32>> = {
